@@ -13,7 +13,7 @@ from fractions import Fraction
 from . import common as C
 
 PID = 'C06'
-THEOREMS = ['C06_hooks_form_cycles', 'C06_hook_reports_size', 'C06_trades_are_the_cycles', 'C06_wallet_identity', 'C06_wallet_identity_flat',
+THEOREMS = ['C06_hooks_form_cycles', 'C06_hook_reports_size', 'C06_trades_are_the_cycles', 'C06_wallet_identity', 'C06_wallet_identity_flat', 'C06_multi_symbol_wallet_identity',
             'C06_oversize_reduce_only_refuted', 'C06_flip_refuted']
 HOOKS = {'on_open_position': 0, 'on_close_position': 1, 'on_increased_position': 2, 'on_reduced_position': 3}
 
@@ -107,7 +107,7 @@ def fills_term(fee, balance, fs, impl):
 def run(tier, seed, replay=None):
     res = C.Result(PID, tier, seed)
     res.trusted = ['Coq 8.16.1 kernel + vm_compute', 'Model/Trades.v + Model/Futures.position_fill hand-written, tied by correspondence', 'harness/c06.py, driver.py, engine.py']
-    res.assumptions = ['one symbol per fill sequence (symbols have separate positions and trade records; the wallet identity sums over them)',
+    res.assumptions = ['the correspondence drives one symbol per fill sequence; the multi-symbol wallet identity is a theorem over the same per-symbol step',
                        'the wallet identity is proved for REGULAR fill sequences (no reduce-only order larger than the position, no flip, no reduce-only order on the '
                        'position\'s own side); the irregular ones are refuted by witnesses and listed as known findings']
     C.standard_proof_step(res, 'Props.C06', THEOREMS, ['theories/Props/C06.vo', 'theories/Run/C06Run.vo'])
